@@ -68,8 +68,8 @@ func codeOf(c int) codes.Code {
 
 func codeInt(c codes.Code) int { return int(int32(uint32(c))) }
 
-func statusCase(c map[string]interface{}) map[string]interface{} {
-	out := map[string]interface{}{}
+func statusCase(c map[string]interface{}) (out map[string]interface{}) {
+	out = map[string]interface{}{}
 	for k, v := range c {
 		out[k] = v
 	}
